@@ -240,7 +240,13 @@ def check(ctx):
                 detail = f"requests iterate over {ir.show(ver, maxdepth=4)}, not over versions[::sample]"
     ctx.ob("C19.R6.sample", f"{g.qualname}|every sample-th version", ok, g.where(), detail)
     stamp = [t for t in ir.walk(gs.ret()) if t[0] == "setitem" and t[2] == ("const", "last_modified")]
-    ctx.sites("C19.R6.stamp", len(stamp), 1, "last_modified stamping in S3VersionUtil.get")
+    if not stamp:
+        # the returned frame is not built from frames stamped inside the loop that receives (version, data) pairs
+        elsewhere = [t_ for _, _, t_, _ in gs.assigns if t_[0] == "setitem" and t_[2] == ("const", "last_modified")]
+        ctx.ob("C19.R6.stamp", f"{g.qualname}|own version's timestamp", False, g.where(),
+               ("last_modified is written outside the loop that receives each download together with its version "
+                f"({ir.show(elsewhere[0][3], maxdepth=4)}): frames and versions are paired by position, which shifts as soon as one download fails")
+               if elsewhere else "the returned rows are not stamped with last_modified")
     for t in stamp[:1]:
         frame, val = t[1], t[3]
         fe = [x for x in ir.walk(frame) if x[0] == "sub" and x[1][0] == "elem" and x[2] == ("const", 1)]
